@@ -44,6 +44,7 @@ var extraAnchors = map[string][]string{
 	"C11": {pkgServer + "\tMetaCDC\tPause", pkgServer + "\tMetaCDC\tResume", pkgServer + "\tMetaCDC\tDelete"},
 	"C05": {pkgServer + "\tMetaCDC\treplicateMsgsFunc"},
 	"C01": {pkgReader + "\treplicateChannelManager\tStartReadCollection", pkgReader + "\treplicateChannelManager\tstartReadChannel", pkgReader + "\treplicateChannelHandler\tgetPartitionID", pkgReader + "\treplicateChannelHandler\tgetCollectionTargetInfo"},
+	"C04": {pkgReader + "\tCollectionReader\tStartRead"},
 	"C09": {pkgWriter + "\tChannelWriter\tWaitObjReady", pkgWriter + "\tChannelWriter\tWaitDatabaseReady", pkgWriter + "\tChannelWriter\tWaitCollectionReady", pkgWriter + "\tChannelWriter\tWaitPartitionReady", pkgWriter + "\tChannelWriter\tWaitObjReadyForAPIEvent", pkgWriter + "\tChannelWriter\tUpdateNameMappings"},
 	"C20": {pkgWriter + "\tChannelWriter\tWaitObjReady", pkgWriter + "\tChannelWriter\tWaitPartitionReady", pkgWriter + "\tChannelWriter\tWaitCollectionReady", pkgWriter + "\t\tUpdateMsgBase"},
 }
@@ -722,6 +723,99 @@ func genericRules(w *World, r *Report, prop string) {
 			})
 		}
 	}
+	// ---- G11: a table keyed by a collection name also carries the database (or an id)
+	r.Rule(prop+"-G11", "a name-keyed table includes the database", "in the same functions: a table that the reference tree does not have (a new struct field or package variable), or a map local to the function, is not looked up or filled with a key made of a collection name without its database or an id: a collection name identifies a collection only inside one database", 0)
+	nG11 := 0
+	for _, root := range fns {
+		fam := familyOf(root)
+		for _, fn := range fam.Funcs {
+			host := shortFn2(fn)
+			k := 0
+			eachInstr(fn, func(in ssa.Instruction) {
+				var table, key ssa.Value
+				switch x := in.(type) {
+				case *ssa.Lookup:
+					if _, ok := x.X.Type().Underlying().(*types.Map); ok {
+						table, key = x.X, x.Index
+					}
+				case *ssa.MapUpdate:
+					table, key = x.Map, x.Key
+				case *ssa.Call:
+					switch callSym(x.Common()).name {
+					case "Load", "LoadWithDefault", "Get", "GetOrInsert", "LoadOrStore", "Store", "Insert":
+						if rv, a := callRecv(x.Common()), callArgs(x.Common()); rv != nil && len(a) >= 1 && strings.Contains(bareTypeName(rv.Type()), "Map") {
+							table, key = rv, a[0]
+						}
+					}
+				}
+				if table == nil {
+					return
+				}
+				if b, ok := key.Type().Underlying().(*types.Basic); !ok || b.Kind() != types.String {
+					return
+				}
+				// which table?
+				what := ""
+				scoped := false
+				for _, x := range backSlice(table, SliceOpts{MaxDepth: 6, NoAggregates: true}) {
+					switch y := x.(type) {
+					case *ssa.Lookup:
+						if y != in {
+							if rl, id := w.keyRoles(y.Index); id || rl["database"] {
+								scoped = true
+							}
+							if b, ok := y.Index.Type().Underlying().(*types.Basic); ok && b.Info()&types.IsInteger != 0 {
+								scoped = true
+							}
+						}
+					case *ssa.FieldAddr:
+						if n := namedOf(y.X.Type()); n != nil && n.Obj().Pkg() != nil && w.isRepoPkg(n.Obj().Pkg().Path()) && what == "" {
+							if !isBaselineField(n.Obj().Pkg().Path(), n.Obj().Name(), fieldName(y.X.Type(), y.Field)) {
+								what = "new field " + n.Obj().Name() + "." + fieldName(y.X.Type(), y.Field)
+							} else {
+								what = "-"
+							}
+						}
+					case *ssa.Global:
+						if y.Pkg != nil && w.isRepoPkg(y.Pkg.Pkg.Path()) && what == "" {
+							if !isBaselineGlobal(y.Pkg.Pkg.Path(), y.Name()) {
+								what = "new package variable " + y.Name()
+							} else {
+								what = "-"
+							}
+						}
+					case *ssa.MakeMap:
+						if what == "" {
+							what = "local map"
+						}
+						// the map is itself the per-database (per-id) entry of an outer table
+						if y.Referrers() != nil {
+							for _, ref := range *y.Referrers() {
+								if mu, ok := ref.(*ssa.MapUpdate); ok && mu.Value == ssa.Value(y) {
+									if b, isB := mu.Key.Type().Underlying().(*types.Basic); isB && b.Info()&types.IsInteger != 0 {
+										scoped = true
+									} else if rl, id := w.keyRoles(mu.Key); id || rl["database"] {
+										scoped = true
+									}
+								}
+							}
+						}
+					}
+				}
+				if what == "" || what == "-" || scoped {
+					return
+				}
+				roles, hasID := w.keyRoles(key)
+				nG11++
+				if !roles["collection"] || roles["database"] || hasID {
+					return
+				}
+				k++
+				r.Fail(prop+"-G11", fmt.Sprintf("%s | %s keyed by a bare collection name #%d", host, what, k), in.Pos(), "the key of this table is built from a collection name without its database (or an id): same-named collections of different databases share the entry, so what was recorded or fetched for one (database, partition ids, drop state, mapping) is used for the other")
+			})
+		}
+	}
+	r.OK(prop+"-G11", "census", 0, fmt.Sprintf("%d accesses to new or local string-keyed tables inspected", nG11))
 	// the same for callbacks that run once per item: a struct built inside the literal must not share a container that
 	// the enclosing function allocated once
 	for _, root := range fns {
@@ -1742,4 +1836,167 @@ func printDerivedList(w *World, p string) {
 	for _, f := range derivedFuncs(w, b, derivedDepthOf(w)) {
 		fmt.Println(p, shortFn2(f))
 	}
+}
+
+// keyRoles: the name roles (database / collection / partition) and id-ness of the values a table key derives from.
+func (w *World) keyRoles(key ssa.Value) (roles map[string]bool, hasID bool) {
+	roles = map[string]bool{}
+	for _, x := range backSlice(key, SliceOpts{MaxDepth: 8, ThroughArg: func(c *ssa.CallCommon) []ssa.Value {
+		s := callSym(c)
+		if s.name == "Sprintf" || s.name == "Join" || strings.HasSuffix(s.name, "Key") || strings.HasSuffix(s.name, "Keys") || s.name == "GetFullCollectionName" {
+			return callArgs(c)
+		}
+		return nil
+	}}) {
+		if b, ok := x.Type().Underlying().(*types.Basic); ok && b.Info()&types.IsInteger != 0 {
+			switch x.(type) {
+			case *ssa.Const:
+			default:
+				hasID = true
+			}
+			continue
+		}
+		name := ""
+		switch y := x.(type) {
+		case *ssa.Parameter:
+			name = y.Name()
+		case *ssa.FreeVar:
+			name = y.Name()
+		case *ssa.FieldAddr:
+			name = fieldName(y.X.Type(), y.Field)
+			if name == "Name" {
+				name = bareTypeName(y.X.Type()) + "Name"
+			}
+		case *ssa.Field:
+			name = fieldName(y.X.Type(), y.Field)
+			if name == "Name" {
+				name = bareTypeName(y.X.Type()) + "Name"
+			}
+		case *ssa.Call:
+			if n := callSym(y.Common()).name; strings.HasPrefix(n, "Get") && len(callArgs(y.Common())) == 0 {
+				name = strings.TrimPrefix(n, "Get")
+				if name == "Name" {
+					if rv := callRecv(y.Common()); rv != nil {
+						name = bareTypeName(rv.Type()) + "Name"
+					}
+				}
+			}
+		case *ssa.Alloc:
+			name = y.Comment
+		case *ssa.Phi:
+			name = y.Comment
+		}
+		if name == "" {
+			continue
+		}
+		if r := identRole(name); r != "" {
+			roles[r] = true
+		}
+		if strings.Contains(strings.ToLower(name), "schema") {
+			roles["collection"] = true
+		}
+	}
+	return roles, hasID
+}
+
+func printNameKeyCensus(w *World) {
+	seen := map[string]bool{}
+	for _, fn := range allAnchoredFull(w) {
+		for _, g := range familyOf(fn).Funcs {
+			eachInstr(g, func(in ssa.Instruction) {
+				var key ssa.Value
+				what := ""
+				switch x := in.(type) {
+				case *ssa.Lookup:
+					if mt, ok := x.X.Type().Underlying().(*types.Map); ok {
+						if b, isB := mt.Key().Underlying().(*types.Basic); isB && b.Kind() == types.String {
+							key, what = x.Index, "lookup "+w.accessPath(x.X)
+						}
+					}
+				case *ssa.Call:
+					s := callSym(x.Common())
+					switch s.name {
+					case "Load", "LoadWithDefault", "Get", "GetOrInsert", "LoadOrStore":
+						if a := callArgs(x.Common()); len(a) >= 1 {
+							if b, isB := a[0].Type().Underlying().(*types.Basic); isB && b.Kind() == types.String {
+								if rv := callRecv(x.Common()); rv != nil && (strings.Contains(bareTypeName(rv.Type()), "Map")) {
+									key, what = a[0], s.name+" "+w.accessPath(rv)
+								}
+							}
+						}
+					}
+				}
+				if key == nil {
+					return
+				}
+				roles, hasID := w.keyRoles(key)
+				k := fmt.Sprintf("%s | %s | roles=%v id=%v", shortFn2(g), what, sortedKeys(roles), hasID)
+				if !seen[k] {
+					seen[k] = true
+					fmt.Println("NAMEKEY", k)
+				}
+			})
+		}
+	}
+}
+
+func allAnchoredFull(w *World) []*ssa.Function {
+	seen := map[*ssa.Function]bool{}
+	var out []*ssa.Function
+	for i := 1; i <= 20; i++ {
+		base := anchoredFuncs0(w, fmt.Sprintf("C%02d", i))
+		for _, f := range append(base, derivedFuncs(w, base, derivedDepthFull)...) {
+			if !seen[f] {
+				seen[f] = true
+				out = append(out, f)
+			}
+		}
+	}
+	return out
+}
+
+//go:embed baseline_globals.txt
+var baselineGlobalsTxt string
+
+func writeBaselineGlobals(w *World, path string) error {
+	var ls []string
+	for _, p := range w.Pkgs {
+		if p.Types == nil {
+			continue
+		}
+		sc := p.Types.Scope()
+		for _, n := range sc.Names() {
+			if v, ok := sc.Lookup(n).(*types.Var); ok {
+				ls = append(ls, p.PkgPath+"\t"+v.Name())
+			}
+		}
+	}
+	sort.Strings(ls)
+	return os.WriteFile(path, []byte(strings.Join(ls, "\n")+"\n"), 0o644)
+}
+
+var baseGlobalSet, baseFieldSet map[string]bool
+
+func isBaselineGlobal(pkg, name string) bool {
+	if baseGlobalSet == nil {
+		baseGlobalSet = map[string]bool{}
+		for _, l := range strings.Split(baselineGlobalsTxt, "\n") {
+			if l != "" {
+				baseGlobalSet[l] = true
+			}
+		}
+	}
+	return baseGlobalSet[pkg+"\t"+name]
+}
+
+func isBaselineField(pkg, typ, name string) bool {
+	if baseFieldSet == nil {
+		baseFieldSet = map[string]bool{}
+		for _, l := range strings.Split(baselineFieldsTxt, "\n") {
+			if f := strings.Split(l, "\t"); len(f) == 5 {
+				baseFieldSet[f[0]+"\t"+f[1]+"\t"+f[3]] = true
+			}
+		}
+	}
+	return baseFieldSet[pkg+"\t"+typ+"\t"+name]
 }
